@@ -27,11 +27,11 @@ READ_VALIDATES_PATH = {"kind": "sibling", "fn": r"^ohkami::request::Request::rea
 
 AUDIT = [
     # ---- Request::read
-    {"fn": r"^ohkami::request::Request::read::\{closure#0\}$", "sink": r"^panic-call:(slice|array) index$|^assert:BoundsCheck$",
+    {"fn": r"^ohkami::request::Request::\w+::\{closure#0\}$", "sink": r"^panic-call:(slice|array) index$|^assert:BoundsCheck$",
      "guards": [{"kind": "operand", "which": "arg1", "from": {"call": r"Future>?::poll$", "payload": "Ok"}, "max_offset": 0, "dominated": False},
                 {"kind": "accumulated_read_count"}],
      "reason": "`buf[..n]` / `buf[n..]` with n = the count returned by read(&mut buf), or the sum of the counts of reads into buf[n..]: <= buf.len() by AsyncRead's contract"},
-    {"fn": r"^ohkami::request::Request::read::\{closure#0\}$", "sink": r"^assert:Overflow\(Add\)$",
+    {"fn": r"^ohkami::request::Request::\w+::\{closure#0\}$", "sink": r"^assert:Overflow\(Add\)$",
      "guards": [{"kind": "accumulated_read_count"}],
      "reason": "`received += n`: received + n <= buf.len() because n was read into buf[received..]"},
     {"fn": r"^ohkami::request::Request::read::\{closure#0\}::\{closure#\d+\}$", "sink": r"^assert:Overflow\(Sub\)$",
@@ -182,6 +182,7 @@ def c02c(ck, prog):
 def c02d(ck, prog):
     R = "C02-d USED-RESULT"
     f = prog.one(r"^ohkami::request::Request::read::\{closure#0\}$")
+    f = prog.awaited_inlined(f)      # the receive loop may live in an awaited helper of Request
     # the first read: AsyncReadExt::read(stream, buf) -> future -> poll -> Ready(Ok(n))
     rd = f.calls_to(r"(AsyncReadExt|ReadExt)::read$")
     if not rd:
